@@ -1,17 +1,33 @@
 #!/bin/bash
-# usage: tools/seedtest.sh <Cnn> <mutation dir, e.g. /tmp/mut/C08> [checks to run, default: the property itself]
+# usage: tools/seedtest.sh <Cnn> <mutation dir, e.g. /tmp/mut/C08> [checks to run, default: the property itself] [--tier t]
 # Confirms a seeded change in the sub-agent's scratch worktree (builds, existing suite passes, demonstration fails with the change and
-# passes without it), then applies the library patch to /repo, runs the registered check(s), and undoes the patch straight afterwards.
+# passes without it), then runs the registered check(s) against the changed tree.
+# While other sub-agents are reading /repo the changed tree is a scratch worktree (SEED_SCRATCH=1, default): the harness is copied with
+# its path dependency pointed at the scratch tree and the Lean project is copied too (Gen files differ), evidence / replays go to the
+# scratch directory.  With SEED_SCRATCH=0 the patch is applied to /repo itself and undone straight afterwards.
 set -u
-P=$1; D=$2; shift 2; CHECKS=${@:-$P}
+P=$1; D=$2; shift 2; CHECKS=${@:-$P}; TIER=${SEED_TIER:-quick}
 W=$D/repo; export CARGO_TARGET_DIR=$D/target
 meta() { python3 -c "import json,sys; print(json.load(open('$D/meta.json')).get('$1',''))"; }
 DEMO=$(meta demo_cmd)
-echo "== demo with the change:"; (cd $W && bash -c "$DEMO" > $D/demo_with.log 2>&1); RW=$?; echo "exit $RW"
-echo "== build + existing suite with the change:"
-(cd $W && cargo build --offline 2>&1 | tail -1 && cargo build --offline --features verif 2>&1 | tail -1 && cargo nextest run --offline 2>&1 | grep -E "Summary|FAIL" | head -5)
-echo "== demo without the change:"; (cd $W && git stash push -q -- src && bash -c "$DEMO" > $D/demo_without.log 2>&1; R0=$?; git stash pop -q; echo "exit $R0")
-echo "== applying patch to /repo and running checks: $CHECKS"
-git -C /repo apply $D/patch.diff || { echo "PATCH DOES NOT APPLY"; exit 2; }
-for c in $CHECKS; do (cd /verif && timeout 3000 ./check $c --tier quick 2>&1 | cut -c1-700 | head -6); done
-git -C /repo checkout -- . ; git -C /repo status --short | head -3
+echo "== demo with the change (expected to fail):"; (cd $D && bash -c "$DEMO" > $D/demo_with.log 2>&1); echo "exit $?"
+echo "== build + existing suite (lib tests) with the change:"
+(cd $W && cargo build --offline 2>&1 | tail -1 && cargo build --offline --features verif 2>&1 | tail -1 && cargo nextest run --offline --lib 2>&1 | grep -E "Summary|FAIL" | head -5)
+echo "== demo without the change:"; (cd $W && git apply -R $D/patch.diff && (cd $D && bash -c "$DEMO") > $D/demo_without.log 2>&1; R0=$?; git apply $D/patch.diff; echo "exit $R0 (expected 0)")
+unset CARGO_TARGET_DIR
+if [ "${SEED_SCRATCH:-1}" = "1" ]; then
+  S=/tmp/seedrun/$P; rm -rf $S; mkdir -p $S
+  git -C /repo worktree add --detach $S/repo HEAD -q && git -C $S/repo apply $D/patch.diff || { echo "PATCH DOES NOT APPLY"; exit 2; }
+  cp -r /verif/harness $S/harness; sed -i "s#path = \"/repo\"#path = \"$S/repo\"#" $S/harness/Cargo.toml
+  mkdir -p $S/build; cp -r /verif/build/cargo $S/build/cargo 2>/dev/null
+  echo "== running checks against scratch tree $S/repo: $CHECKS (tier $TIER)"
+  for c in $CHECKS; do (cd /verif && VERIF_REPO=$S/repo VERIF_HARNESS=$S/harness VERIF_BUILD=$S/build VERIF_OUT=$S timeout 3000 ./check $c --tier $TIER 2>&1 | cut -c1-900 | head -6); done
+  # Gen files were regenerated from the scratch tree inside /verif/lean: regenerate them from /repo again
+  python3 /verif/tools/extract.py /repo /verif/lean/Heathcliff/Gen > /dev/null
+  git -C /repo worktree remove --force $S/repo; rm -rf $S/build $S/harness
+else
+  echo "== applying patch to /repo and running checks: $CHECKS (tier $TIER)"
+  git -C /repo apply $D/patch.diff || { echo "PATCH DOES NOT APPLY"; exit 2; }
+  for c in $CHECKS; do (cd /verif && timeout 3000 ./check $c --tier $TIER 2>&1 | cut -c1-900 | head -6); done
+  git -C /repo checkout -- . ; git -C /repo status --short | head -3
+fi
